@@ -575,8 +575,10 @@ class SupvisorsMapper:
         if not sup_id.local_view:
             sup_id.local_view = local_view = LocalNetwork(self.logger)
             local_view.from_network(remote_view)
-        # update nodes using machine id as a key
-        self.nodes.setdefault(remote_view.machine_id, []).append(sup_id.identifier)
+        # update nodes using machine id as a key (the Supvisors instance may be identified again after a restart)
+        node_identifiers = self.nodes.setdefault(remote_view.machine_id, [])
+        if sup_id.identifier not in node_identifiers:
+            node_identifiers.append(sup_id.identifier)
         # assign the stereotypes
         self._assign_stereotypes(identifier, payload['stereotypes'])
 
